@@ -149,6 +149,10 @@ def run_tlc(work, module, cfgfile, sink=None, workers=1, timeout=1800, heap="4g"
     if simulate:
         cmd += ["-simulate", simulate]
     cmd += list(extra_args)
+    covdir = os.environ.get("VERIF_TLC_COVERAGE")     # bin/speccoverage: which expressions of S3.tla do the checks evaluate
+    cov = {}
+    if covdir:
+        cmd += ["-coverage", "1"]
     cmd.append(module)
     t0 = time.time()
     p = subprocess.Popen(cmd, cwd=work.dir, stdout=subprocess.PIPE, stderr=subprocess.STDOUT, bufsize=1 << 20, env=env)
@@ -164,6 +168,12 @@ def run_tlc(work, module, cfgfile, sink=None, workers=1, timeout=1800, heap="4g"
                         raise Infra("harness went away while TLC was emitting tours")
             else:
                 line = raw.decode("utf-8", "replace").rstrip("\n")
+                if covdir:
+                    m = COVERAGE_LINE.match(line)
+                    if m:
+                        if m.group(2) == "S3":
+                            cov[m.group(1)] = max(cov.get(m.group(1), 0), int(m.group(3)))
+                        continue
                 if len(res.log) < 4000:
                     res.log.append(line)
                 m = TLC_STATS.search(line)
@@ -179,7 +189,14 @@ def run_tlc(work, module, cfgfile, sink=None, workers=1, timeout=1800, heap="4g"
     if simulate is not None and ("Error:" in text and "violated" in text):
         res.ok = False
     shutil.rmtree(meta, ignore_errors=True)
+    if covdir and cov:
+        os.makedirs(covdir, exist_ok=True)
+        with open(os.path.join(covdir, "%s.%s.%d.json" % (module, os.path.basename(cfgfile), int(t0 * 1000))), "w") as f:
+            json.dump(cov, f)
     return res
+
+
+COVERAGE_LINE = re.compile(r"^\s*\|*(line \d+, col \d+ to line \d+, col \d+) of module (\w+): (\d+)")
 
 
 class Harness:
